@@ -13,7 +13,7 @@ RULE = ('(i) systematic preemption injection (sys.monitoring, context bound 2): 
         'injection inside vec3 / spherical_polygon / spherical_triangle / polyhedral / dodecahedron / pentagon / vec2 / quat code objects '
         '(strided quick, exhaustive thorough); bounded-cache eviction windows (containers that stop growing under 6k-20k distinct calls are filled exactly to capacity with the entries of A as the oldest, B inserts a new entry at every event of A); cold-start schedules: all shared containers rewound to their import-time contents before A, B '
         'injected at every LINE event that only a cold run executes (cache-fill code) plus a stride sample. Verdict: A result and injected B result bit-equal to their single-threaded baselines, no '
-        'exception. (ii) real threads: 8 and 16 threads, switch interval 1 us, mixed operations against precomputed expectations. '
+        'exception. (ii) context bound 3: two real threads with a deterministic hand-over inside the monitoring callbacks - A up to event k, B up to event j, A to the end, B to the end - for sampled (k, j), a third of them from cold state; (iii) real threads: 8 and 16 threads, switch interval 1 us, mixed operations against precomputed expectations. '
         'distinct = distinct (A, B, granularity, event index) executions; non-trivial = injections that actually fired inside a5 code')
 ASSUMPTIONS = ['context bound 2 with B run to completion; schedules with three or more interleaved calls or a partial B are only reached by the real-thread run',
                'CPython with the GIL: a preemption can only happen between bytecodes, which the LINE / INSTRUCTION events enumerate']
@@ -93,7 +93,7 @@ def plan(tier, seed):
     nsh = 12 if tier == 'quick' else 32
     for i in range(nsh):
         specs.append({'part': 'inject', 'pairs': geo_pairs[i::nsh], 'cap': 800 if tier == 'quick' else 0, 'mode': 'line'})
-    nso = 3 if tier == 'quick' else 8
+    nso = 6 if tier == 'quick' else 10
     for i in range(nso):
         specs.append({'part': 'inject', 'pairs': other_pairs[i::nso], 'cap': 40 if tier == 'quick' else 0, 'mode': 'line'})
     nsi = 3 if tier == 'quick' else 12
@@ -107,6 +107,10 @@ def plan(tier, seed):
     cpairs += [('l2c_mid', 'l2c_mid_alt'), ('l2c_pole', 'l2c_pole_alt'), ('l2c_anti_hi', 'l2c_anti_alt'), ('res0', 'res0'), ('meta', 'children')]
     for i in range(nsc):
         specs.append({'part': 'inject_cold', 'pairs': cpairs[i::nsc], 'cap': 60 if tier == 'quick' else 600})
+    hp = [(a, b) for a in ('l2c_mid', 'l2c_pole', 'c2l_deep', 'c2b_seg', 'c2b_auto_low', 'compact') for b in ('l2c_mid_alt', 'c2l_deep', 'c2b_seg', 'res0')]
+    nsh2 = 3 if tier == 'quick' else 12
+    for i in range(nsh2):
+        specs.append({'part': 'handover', 'pairs': hp[i::nsh2], 'n': 150 if tier == 'quick' else 2500})
     specs.append({'part': 'inject_pressure', 'cap': 400 if tier == 'quick' else 0, 'fill': 6000 if tier == 'quick' else 20000})
     specs.append({'part': 'footprint'})
     return specs
@@ -196,6 +200,41 @@ def run_shard(spec, ctx):
             ctx.count('pairs_cold')
         for s in inj.sites:
             ctx.setadd('preemption_sites_cold', s)
+        inj.close()
+    elif spec['part'] == 'handover':
+        # context bound 3 with two real threads and a deterministic hand-over: A[0:k] B[0:j] A[k:] B[j:], (k, j) sampled, cold and warm
+        inj = sched.Injector(a5dir)
+        ho = sched.Handover(a5dir)
+        for an, bn in spec['pairs']:
+            A, B = make_call(a5, cat[an]), make_call(a5, cat[bn])
+            na, nb = inj.events_in(A, 'line'), inj.events_in(B, 'line')
+            rew.rewind()
+            nac, nbc = inj.events_in(A, 'line'), inj.events_in(B, 'line')
+            for it in range(spec['n']):
+                cold = it % 3 == 0
+                k = ctx.rnd.randint(1, nac if cold else na)
+                j = ctx.rnd.randint(1, nbc if cold else nb)
+                if cold:
+                    rew.rewind()
+                ra, rb, hung = ho.run(A, B, k, j)
+                case = {'A': an, 'B': bn, 'A_call': cat[an], 'B_call': cat[bn], 'mode': 'handover', 'k': k, 'j': j, 'cold': cold}
+                ctx.case((an, bn, 'handover', k, j, cold), nontrivial=ho.a_stopped_at is not None and ho.b_stopped_at is not None)
+                if hung or ra is None or rb is None:
+                    ctx.count('handover_watchdog')
+                    continue
+                if ho.a_stopped_at is not None and ho.b_stopped_at is not None:
+                    ctx.count('handover_schedules_interleaved')
+                    ctx.setadd('handover_sites', (ho.a_stopped_at[:2], ho.b_stopped_at[:2]))
+                for nm, r_, name in (('A', ra, an), ('B', rb, bn)):
+                    if r_[0] == 'exc':
+                        ctx.fail('%s_raises' % nm, case, exc=repr(r_[1]))
+                    elif sched.canon(r_[1]) != base[name]:
+                        ctx.fail('%s_wrong_result' % nm, case)
+                if cold:
+                    for n2 in (an, bn):
+                        if sched.canon(make_call(a5, cat[n2])()) != base[n2]:
+                            ctx.fail('wrong_result_after_cold_schedule', dict(case, later_call=n2))
+        ho.close()
         inj.close()
     elif spec['part'] == 'inject_pressure':
         # bounded-cache eviction windows: find shared containers that stop growing under a stream of distinct calls (= bounded
@@ -322,6 +361,10 @@ def finalize(m, tier):
         inc.append('too few injections fired')
     if c.get('injections_fired_cold', 0) < 300:
         inc.append('too few cold-start injections fired')
+    if c.get('handover_schedules_interleaved', 0) < 500:
+        inc.append('too few hand-over schedules interleaved')
+    if c.get('handover_watchdog', 0) > 20:
+        inc.append('hand-over watchdog fired %d times' % c.get('handover_watchdog', 0))
     if c.get('thread_ops', 0) < 2000:
         inc.append('too few thread operations')
     if c.get('thread_watchdog_expired', 0):
@@ -344,6 +387,19 @@ def replay(f, ctx):
         import a5.projections.polyhedral as m4, a5.projections.dodecahedron as m5, a5.geometry.pentagon as m6
         import a5.math.vec2 as m7, a5.math.quat as m8, a5.core.coordinate_transforms as m9, a5.projections.crs as m10
         inj.set_instruction_targets([m1, m2, m3, m4, m5, m6, m7, m8, m9, m10])
+        if c.get('mode') == 'handover':
+            inj.close()
+            ho = sched.Handover(a5dir)
+            if c.get('cold'):
+                rew.rewind()
+            ra, rb, hung = ho.run(make_call(a5, cat[c['A']]), make_call(a5, cat[c['B']]), c['k'], c['j'])
+            ho.close()
+            for nm, r_, name in (('A', ra, c['A']), ('B', rb, c['B'])):
+                if r_ is None or r_[0] == 'exc':
+                    ctx.fail('%s_raises' % nm, c, exc=repr(r_))
+                elif sched.canon(r_[1]) != base[name]:
+                    ctx.fail('%s_wrong_result' % nm, c)
+            return
         if c.get('cold'):
             rew.rewind()
         inject_pair(a5, sched, inj, cat, c['A'], c['B'], c['mode'], c['k'], ctx, base, cold=bool(c.get('cold')))
